@@ -160,6 +160,11 @@ KERNELS = [
     dict(name='infohashRegex', kind='regex', file='torf/_magnet.py', var='_INFOHASH_REGEX'),
     dict(name='xtRegex', kind='regex', file='torf/_magnet.py', var='_XT_REGEX'),
     dict(name='md5sumRegex', kind='regex', file='torf/_utils.py', var='_md5sum_regex'),
+    # --- Torrent.calculate_piece_size (C09): the size classes and the clamping of the power of two
+    dict(name='calcMaxPieces', file='torf/_torrent.py', func='Torrent.calculate_piece_size',
+         pick=('if-chain-assign', 'max_pieces'), params=[('size', 'Int')], ret='Int'),
+    dict(name='calcClamp', file='torf/_torrent.py', func='Torrent.calculate_piece_size', pick=('return',),
+         params=[('piece_size', 'Int'), ('min_size', 'Int'), ('max_size', 'Int')], ret='Int'),
     # --- the parameter tables of magnet URIs (C13): literal tuples of names; an element that is itself a tuple
     #     contributes its first component
     dict(name='magnetKnownParameters', kind='strings', file='torf/_magnet.py', func='Magnet',
@@ -238,6 +243,21 @@ def _pick(fn, pick):
         if len(hits) != 1:
             raise CannotTranslate(f'{len(hits)} class-level assignments to {pick[1]}')
         return hits[0].value
+    if kind == 'if-chain-assign':
+        # `if c1: v = e1 elif c2: v = e2 … else: v = en`  →  the conditional expression it computes
+        def chain(node):
+            if isinstance(node, ast.If):
+                if len(node.body) != 1 or len(node.orelse) != 1:
+                    raise CannotTranslate('branch of the chain is not a single statement')
+                return ast.IfExp(test=node.test, body=chain(node.body[0]), orelse=chain(node.orelse[0]))
+            if (isinstance(node, ast.Assign) and len(node.targets) == 1 and isinstance(node.targets[0], ast.Name)
+                    and node.targets[0].id == pick[1]):
+                return node.value
+            raise CannotTranslate(f'statement in the chain assigning {pick[1]}: {type(node).__name__}')
+        hits = [n for n in fn.body if isinstance(n, ast.If) and pick[1] + ' =' in ast.unparse(n)]
+        if len(hits) != 1:
+            raise CannotTranslate(f'{len(hits)} top-level if-chains assigning {pick[1]}')
+        return chain(hits[0])
     if kind == 'for-tuple':
         # the n-th `for … in (<literal tuple>)` loop of the function, in source order
         hits = sorted((n for n in ast.walk(fn) if isinstance(n, ast.For) and isinstance(n.iter, ast.Tuple)),
@@ -298,6 +318,9 @@ class Tr:
             return f'(-{self.int_(n.operand)})'
         if isinstance(n, ast.BinOp):
             # -(-a // b)  : ceiling division
+            if isinstance(n.op, ast.Pow) and isinstance(n.right, ast.Constant) and isinstance(n.right.value, int) \
+                    and not isinstance(n.right.value, bool) and n.right.value >= 0:
+                return f'({self.int_(n.left)} ^ ({n.right.value} : Nat))'
             ops = {ast.Add: '+', ast.Sub: '-', ast.Mult: '*', ast.FloorDiv: '/', ast.Mod: '%'}
             for t, sym in ops.items():
                 if isinstance(n.op, t):
